@@ -966,7 +966,7 @@ fn exhaustive(ctx: &mut Ctx, which: Which, depth: usize, campaign: &str) {
 }
 
 fn safety_property(ctx: &mut Ctx, which: Which, name: &'static str, name_b: &'static str) {
-    let cases = ctx.tier.pick(80_000, 1_500_000);
+    let cases = ctx.tier.pick(160_000, 1_500_000);
     let max_len = ctx.tier.pick(70usize, 250usize);
     replay_saved::<Schedule, _>(ctx, name, case_for(which, false));
     // pass A: unrestricted generator; listed known findings are counted and the campaign goes on
@@ -1167,7 +1167,7 @@ fn healthy() -> impl Strategy<Value = HealthyCase> {
 
 fn c30(ctx: &mut Ctx) {
     ctx.rule = format!("fault-free schedules for 2-, 3- and 5-node clusters: from the initial state or after a generated faulty prefix (loss, per-node timer skew; the deliveries that trigger the listed C27/C28 findings are excluded from the prefix) the network heals: all node clocks advance together in quanta of {QUANTUM} ms, after each quantum every node's process() runs, and every in-flight request and response is delivered exactly once in a generated order before the next quantum; client appends are issued at the settled leader at generated times. Oracle (bounded liveness, deterministic, no wall clock): within {LIVENESS_BOUND} quanta the cluster reaches a state with exactly one leader, every other node following it, and every appended entry present and committed on every node. Non-trivial: >=2 appended entries and a delivery order different from FIFO. Distinct = hash of the case. This can refute liveness within the bound, never establish it.");
-    let cases = ctx.tier.pick(30_000, 400_000);
+    let cases = ctx.tier.pick(100_000, 600_000);
     let max_needed = std::sync::atomic::AtomicU64::new(0);
     let test = |c: &HealthyCase| -> CaseResult {
         let (ci, needed) = healthy_case(c)?;
